@@ -298,6 +298,18 @@ impl<T: Transport> Session<T> {
         // Try using a background task to read from the transport, and then just check that task
         // and `take()` from requests in a `select!` here.
         loop {
+            // A reply that another reader has already stored is collected without queueing for the
+            // receive lock: a reader whose own reply never arrives holds that lock indefinitely.
+            let stored = requests
+                .lock()
+                .await
+                .get_mut(&message_id)
+                .ok_or(Error::RequestNotFound { message_id })?
+                .take()?;
+            if let Some(partial) = stored {
+                let reply: rpc::Reply<O> = partial.try_into()?;
+                break reply.into_result();
+            }
             let mut rx_guard = rx.lock().await;
             tracing::trace!(?requests);
             tracing::debug!("checking for ready response");
